@@ -3636,12 +3636,21 @@ def eval_derived(case):
                 mf.set_structure(atoms)
                 if header_tuple(molio.MOLFile.read(io.StringIO(reuse_text(mf, "mol"))).header) != header_tuple(g["A"].header):
                     raise Fail("readback_header", "parsed header assigned to a MOLFile", None, None)
-            elif op == "record":
-                f2["A"] = g["A"]
             else:
+                # a record taken from a parsed file (header / metadata still text, or forced) goes into another
+                # file under another name; the direct file holds the same record under that name
                 rr = g["A"]
-                rr.header, rr.metadata, rr.get_structure()
-                f2["A"] = rr
+                if op == "record_forced":
+                    rr.header, rr.metadata, rr.get_structure()
+                f2["B"] = rr
+                fb = molio.SDFile()
+                rb = molio.SDRecord(header=make_header(REUSE_HEADERS[c["h"]]), metadata=reuse_metadata(c["meta"]))
+                rb.set_structure(atoms, version=ver)
+                fb["B"] = rb
+                text = fb.serialize()
+                if list(molio.SDFile.read(io.StringIO(f2.serialize())).keys()) != ["B"]:
+                    raise Fail("readback_names", "record of a parsed file stored under another name", ["B"],
+                               list(molio.SDFile.read(io.StringIO(f2.serialize())).keys()))
             if f2.serialize() != text:
                 raise Fail("differs_from_direct", "SD file built from parsed %s differs from the file built directly" % op,
                            text[:300], f2.serialize()[:300])
